@@ -183,7 +183,7 @@ def finish(ctx, cres, hres):
                         ctx.add_samples([{"vector": {"class": r["class"], "shapeW": r["shapeW"], "stridesW": r["stridesW"], "lens": r["lens"]},
                                           "accepted_by": sorted({x["ctor"] for x in r["runs"] if x["outcome"] == "ok"})[:6]}])
         add_bad(res)
-        for k in ("runs", "accepted"):
+        for k in ("runs", "accepted", "safe_count_overflow"):
             ctx.cov["constructor_" + k] = ctx.cov.get("constructor_" + k, 0) + res["stats"].get(k, 0)
     for trace, res in hres:
         cur = None
